@@ -1,6 +1,6 @@
 (* C04 — only the player to act can act, in the right phase. Refusal half: these
    statements hold at EVERY state (no invariant needed, only the guards). *)
-From PF Require Import Base ModelGame ProofsGameBasic.
+From PF Require Import Base ModelGame ProofsGameBasic ProofsInv.
 
 Theorem C04_ready_wrong_phase :
   forall g, st_event (g_st g) <> EvReadyRequested -> step g OReady = (g, ErrInvalidAction).
@@ -35,3 +35,14 @@ Theorem C04_seat_without_offer :
   forall g i a, p_allowed (get_p g i) = [] -> allowed g i a = false.
 Proof. exact allowed_nil. Qed.
 Print Assumptions C04_seat_without_offer.
+
+(* in every reachable state: outside a betting round nobody is offered anything, and the never
+   legal "pay" is never among the offers *)
+Theorem C04_no_offers_outside_betting_round :
+  forall c deck g ops i,
+    cfg_ok c -> create c deck = (g, Ok) ->
+    st_event (g_st (run g ops)) <> EvRoundStarted -> p_allowed (get_p (run g ops) i) = [].
+Proof.
+  intros c deck g ops i Hc Hcr He. apply (inv_offers _ (Inv_reachable c deck g ops Hc Hcr) He).
+Qed.
+Print Assumptions C04_no_offers_outside_betting_round.
